@@ -26,4 +26,8 @@ def queries():
                             defs={"MODE": 1, "SAME": same, "WITHDATA": wd, "DEPTHX": dx, "VERIF_YIELD": None,
                                   "VERIF_HCAP": 3, "VERIF_KEY4": None},
                             unwind=8, unwindset=["bidib_build_message_hex_string.0:24", "memcpy.0:24"], instr=R, tier="quick" if quick else "thorough"))
+    # numbers are assigned at submission; the wire order per node equals the submission order only if a message is never
+    # admitted past older held ones: the admission step of C03 (real bidib_node_try_send on an arbitrary node state)
+    from check import borrow
+    qs += borrow("C03", lambda q: q.name.startswith("step0-"))
     return qs
